@@ -4,6 +4,7 @@ import (
 	"fmt"
 	"go/ast"
 	"go/token"
+	"sort"
 	"strconv"
 	"strings"
 )
@@ -70,7 +71,7 @@ func regexArgs(where string, fd *ast.FuncDecl) []string {
 }
 
 // comparedLiterals lists the string literals that the expression `lhs` is compared with
-// (== or !=) inside a function body, in source order.
+// (== or !=, either operand order) inside a function body, in source order.
 func comparedLiterals(fd *ast.FuncDecl, lhs string, op token.Token) []string {
 	var out []string
 	ast.Inspect(fd.Body, func(n ast.Node) bool {
@@ -78,10 +79,12 @@ func comparedLiterals(fd *ast.FuncDecl, lhs string, op token.Token) []string {
 		if !ok || be.Op != op {
 			return true
 		}
-		if exprText(be.X) == lhs {
-			if bl, ok := be.Y.(*ast.BasicLit); ok && bl.Kind == token.STRING {
-				v, _ := strconv.Unquote(bl.Value)
-				out = append(out, v)
+		for _, pair := range [][2]ast.Expr{{be.X, be.Y}, {be.Y, be.X}} {
+			if exprText(pair[0]) == lhs {
+				if bl, ok := pair[1].(*ast.BasicLit); ok && bl.Kind == token.STRING {
+					v, _ := strconv.Unquote(bl.Value)
+					out = append(out, v)
+				}
 			}
 		}
 		return true
@@ -126,10 +129,12 @@ func genC09() string {
 		}
 		return true
 	})
-	for _, n := range []string{"domainRegexp", "repositoryRegexp"} {
-		if _, ok := names[n]; !ok {
-			fail("%s: validateRegistryScopeFormat has no %s", ociFile, n)
-		}
+	// the locals may be renamed: then the first expression compiled is the domain's, the second the repository's
+	if _, ok := names["domainRegexp"]; !ok {
+		names["domainRegexp"] = rx[0]
+	}
+	if _, ok := names["repositoryRegexp"]; !ok {
+		names["repositoryRegexp"] = rx[1]
 	}
 	fmt.Fprintf(&b, "/-- `domainRegexp` of validateRegistryScopeFormat (%s) -/\ndef domainRegex : List Char :=\n  %s\n\n", ociFile, c09LeanChars(names["domainRegexp"]))
 	fmt.Fprintf(&b, "/-- `repositoryRegexp` of validateRegistryScopeFormat -/\ndef repositoryRegex : List Char :=\n  %s\n\n", c09LeanChars(names["repositoryRegexp"]))
@@ -181,7 +186,9 @@ func genC09() string {
 	}
 	fmt.Fprintf(&b, "/-- the regular expression of `file.IsValidFileName` (%s) -/\ndef fileNameRegex : List Char :=\n  %s\n", fileFile, c09LeanChars(frx[0]))
 	var refused []string
-	for _, s := range comparedLiterals(iv, "fileName", token.EQL) {
+	lits := comparedLiterals(iv, "fileName", token.EQL)
+	sort.Strings(lits) // a set: the order of the comparisons does not matter
+	for _, s := range lits {
 		refused = append(refused, c09LeanChars(s))
 	}
 	fmt.Fprintf(&b, "/-- names `IsValidFileName` refuses before it consults the expression (`fileName == …`) -/\ndef fileNameRefused : List (List Char) := [%s]\n\n", strings.Join(refused, ", "))
@@ -256,7 +263,7 @@ func genC09() string {
 	}
 	fmt.Fprintf(&b, "/-- `LevelSkip.Name` (%s) -/\ndef levelSkipName : String := %s\n", tpFile, leanStr(skipName))
 	vc := mustFunc(tp, tpFile, "", "validatePolicyCore")
-	lits := comparedLiterals(vc, "verificationLevel.Name", token.EQL)
+	lits = comparedLiterals(vc, "verificationLevel.Name", token.EQL)
 	if len(lits) != 1 {
 		fail("%s: expected exactly one `verificationLevel.Name == \"…\"` in validatePolicyCore, found %d", tpFile, len(lits))
 	}
